@@ -432,6 +432,8 @@ _BINOPS = {ast.Add: lambda a, b: a + b, ast.Sub: lambda a, b: a - b, ast.Mult: l
 
 def _ev(e, env):
     """tiny evaluator for guard expressions over one sample value (finite-domain decision of a predicate, like the regex enumeration)"""
+    if isinstance(e, (ast.Call, ast.Attribute, ast.Subscript)) and env and src(e) in env:
+        return env[src(e)]  # an opaque sub-expression the caller gave a sample value to (`self._file.tell()`)
     if isinstance(e, ast.Constant):
         return e.value
     if isinstance(e, ast.Name):
